@@ -464,6 +464,10 @@ func ruleBulkFraming(w *core.World, r *core.Report) {
 				if _, isMk := p.Resolve(sl.X).(*ssa.MakeSlice); isMk {
 					return
 				}
+				// the same list grown by append from an empty make: one element on every back edge of the loop (r7_n2.go)
+				if grownOnePerIteration(sl.X) || grownOnePerIteration(core.Unwrap(sl.X)) {
+					return
+				}
 			}
 			bad, badPos = "a return without error does not carry list[1:] of the list built from the elements", ret.Pos()
 		})
